@@ -26,7 +26,7 @@ MIN_NONTRIVIAL = {"quick": 120, "thorough": 1200}
 REQUIRED_PROBES = ["pipe_reduce"]
 REQUIRED_FEATURES = ["map:builtin", "map:eager", "map:reverse-ordered", "map:unordered-permuted", "map:bursty-unordered",
                      "map:pool.map", "map:pool.imap", "map:pool.imap_unordered", "chunksize:1", "chunksize:None",
-                     "chunksize:nnz+1", "mode:gw", "mode:cis", "mode:trans", "split-pipeline", "via:cli-balance"]
+                     "chunksize:nnz+1", "mode:gw", "mode:cis", "mode:trans", "split-pipeline", "via:cli-balance", "history:path-reused"]
 SHARD_TIMEOUT = {"quick": 1800, "thorough": 7200}
 
 
@@ -263,6 +263,33 @@ def one_history(ctx, shard, i, rng, idx):
         if pool is not None:
             pool.close()
             pool.join()
+    cid = f"h:{shard['sub']}:{i}:path-reuse"
+    if ctx.want(cid) and n >= 6:
+        with ctx.case(cid, dict(base_desc, history="file at the same path replaced by another cooler")) as c:
+            c.feature("history:path-reused")
+            # same number of bins, another chromosome layout and other data
+            cut = int(rng.integers(2, n - 1))
+            while cut in offs:
+                cut = cut + 1 if cut + 1 < n - 1 else 2
+            bt2 = [["chrA", list(range(0, cut * 100 + 1, 100))], ["chrB", list(range(0, (n - cut) * 100 + 1, 100))]]
+            P2 = {}
+            for (a, b_) in gen.gen_pixels(rng, n, True, "dense"):
+                P2[(a, b_)] = int(rng.integers(1, 60))
+            make_cooler(path, bt2, P2)
+            clr2 = cooler.Cooler(path)
+            co2 = gen.bt_chrom_of(bt2)
+            for mode2 in ("cis", "trans"):
+                o2 = dict(cis_only=mode2 == "cis", trans_only=mode2 == "trans", ignore_diags=1, mad_max=0, min_nnz=0,
+                          min_count=0, tol=1e-6, max_iters=200, rescale_marginals=True)
+                b2, st2 = cooler.balance_cooler(clr2, chunksize=int([3, 10**7][int(rng.integers(2))]), **o2)
+                r2_ = ic.ref_ic(P2, n, co2, **o2)
+                with np.errstate(all="ignore"):
+                    same = np.array_equal(np.isnan(b2), np.isnan(r2_["bias"])) and \
+                        np.allclose(b2, r2_["bias"], rtol=1e-9, atol=0, equal_nan=True)
+                c.check(same, f"weights-depend-on-process-history:{mode2}",
+                        f"after the file at the same path was replaced, {mode2}-only balancing does not give the weights "
+                        f"of the documented procedure for the NEW data", {"got": b2, "ref": r2_["bias"]})
+            probes.collect_worker_events(ctx)
     perms = {p for p in perm_log}
     ctx.extra["distinct_adversarial_completion_orders"] = ctx.extra.get("distinct_adversarial_completion_orders", 0) + len(perms)
     porders = {p["completion_order"] for p in pool_log}
